@@ -240,6 +240,17 @@ class Registry:
             if n == "defaultdict":
                 return [(st, V(("dict", ("none",), ("none",)), None))]  # typed by the local's declaration (DDict)
             if n == "cast" and len(node.args) == 2:
+                if eng.c is not None and "cast_not_none" in getattr(eng.c, "opts", ()) and not eng.spec:
+                    # opt-in (contract option "cast_not_none"): cast(T, v) of an Optional v -- still the identity, but the contract takes on the OBLIGATION that v
+                    # is not None here and the value is used as a T afterwards (a possibly-None value fails the obligation, it is never assumed away)
+                    out = []
+                    for s_, v_ in eng.ev(node.args[1], st):
+                        if v_.t[0] == "opt":
+                            eng.oblige(s_, znot(v_.x[0]), "pre@call", f"cast: value is not None@{node.lineno}", node.lineno)
+                            s_.assume(znot(v_.x[0]))
+                            v_ = v_.x[1]
+                        out.append((s_, v_))
+                    return out
                 return eng.ev(node.args[1], st)  # typing.cast is the identity
             if n == "next" and len(node.args) == 1 and isinstance(node.args[0], ast.GeneratorExp):
                 return self.next_gen(eng, node, st)
@@ -813,6 +824,7 @@ class Registry:
                 raise ContractDrift(f"{c.key}: bad keyword {k}")
             bound[k] = a
         cs = State()
+        sub_self = None
         cs.pc = st.pc  # shared: assumptions land in the caller
         for n in pnames:
             if n not in bound:
@@ -832,6 +844,12 @@ class Registry:
                         and c.params[n][1] in self._all_bases(a_.t[1]) and all(f in a_.x for f in OBJ_LAYOUT[c.params[n][1]])
                         and n not in c.modifies):
                     # a subclass instance passed where the (non-mutating) contract speaks about the base class: its base-class fields
+                    a_ = V(c.params[n], {f: a_.x[f] for f in OBJ_LAYOUT[c.params[n][1]]})
+                elif (a_.t[0] == "obj" and c.params[n][0] == "obj" and a_.t != c.params[n] and c.params[n][1] in OBJ_LAYOUT
+                        and c.params[n][1] in self._all_bases(a_.t[1]) and all(f in a_.x for f in OBJ_LAYOUT[c.params[n][1]])
+                        and n in c.modifies and n == "self" and c.key.endswith(".__init__")):
+                    # super().__init__(...) of a subclass record: the base-class constructor contract acts on the base-class fields, the subclass's own fields are untouched
+                    sub_self = a_
                     a_ = V(c.params[n], {f: a_.x[f] for f in OBJ_LAYOUT[c.params[n][1]]})
                 if a_.t[0] == "opt" and c.params[n][0] not in ("opt", "closure") and c.params[n] != ("opaque", "Any"):
                     if not eng.spec:
@@ -949,6 +967,8 @@ class Registry:
             # write back mutated arguments
             for m in c.modifies:
                 idx = pnames.index(m)
+                if m == "self" and sub_self is not None:
+                    cs.vars[m] = V(sub_self.t, dict(sub_self.x, **cs.vars[m].x))
                 self.write_back(eng, st, node, idx, m, cs.vars[m], self_expr)
             out.append((st, res))
             return out
